@@ -401,4 +401,11 @@ def r6(F, R):
     R.floor(30)
 
 
-RULES = [("R5", r5, None), ("R4", r4, None), ("R1", r1, None), ("R2", r2, None), ("R3", r3, None), ("R6", r6, None)]
+def r7(F, R):
+    """FailOnSkipped re-wraps every event through `Event::map`; `Event`'s transformers keep the stored metadata."""
+    n = roles.check_event_metadata_kept(F, R)
+    if n:
+        R.floor(3)
+
+
+RULES = [("R5", r5, None), ("R4", r4, None), ("R1", r1, None), ("R2", r2, None), ("R3", r3, None), ("R6", r6, None), ("R7", r7, ["all", "timestamps"])]
